@@ -550,11 +550,17 @@ C07_rt(step) ==
      /\ \A i \in 1..Len(step.src.bundles) : \A j \in 1..Len(step.back.bundles) :
           step.src.bundles[i].id = step.back.bundles[j].id =>
              SeqToSet(ContentSeq(step.back.bundles[j].recs)) = USet(step.src.bundles[i].recs))
-(* every relation comes back exactly once: never zero (C07_rt) and never twice *)
+(* every relation comes back exactly once: never zero (C07_rt) and never more often than *)
+(* the source states it                                                                  *)
 C07_one(step) ==
-  LET once(recs) == \A i \in 1..Len(recs) : recs[i].k \in Elements \/ CountIn(ContentSeq(recs), Content(recs[i])) = 1
+  LET atmost(back, src) ==
+        \A i \in 1..Len(back) : back[i].k \in Elements \/
+           CountIn(ContentSeq(back), Content(back[i])) <= CountIn(UnifiedSpec(src), Content(back[i]))
   IN Cl("C07_one", IsRT(step, "rdf") /\ step.exc = "none",
-        once(step.back.recs) /\ \A j \in 1..Len(step.back.bundles) : once(step.back.bundles[j].recs))
+        /\ atmost(step.back.recs, step.src.recs)
+        /\ \A j \in 1..Len(step.back.bundles) : \A i \in 1..Len(step.src.bundles) :
+             step.src.bundles[i].id = step.back.bundles[j].id =>
+                atmost(step.back.bundles[j].recs, step.src.bundles[i].recs))
 C07Clauses(step) == IF IsRT(step, "rdf") THEN {C07_noexc(step), C07_rt(step), C07_one(step)} ELSE {}
 (* C11 — reading foreign PROV-JSON / PROV-XML is stable under re-serialisation           *)
 (* step.res = [exc, d: loaded, d2: loaded again after the library re-wrote d, d3: after the *)
